@@ -80,12 +80,15 @@ def ob_smooth(n, w, et):
     return Obligation('smooth n=%d w=%d et=%d' % (n, w, et), fn, bounds='n=%d width=%d' % (n, w))
 
 
-def ob_median_scalar(n, even):
+def ob_median_scalar(n, even, shape=None):
     def fn(ctx):
         from pydl import median
         xs = ctx.reals('x', n)
-        m = median(symnp.rarray(xs), even=even)
-        d = {'fn': 'median', 'n': n, 'even': even}
+        arr = symnp.rarray(xs)
+        if shape is not None:
+            arr = arr.reshape(shape)        # the IDL median of an N-D array is that of all its elements
+        m = median(arr, even=even)
+        d = {'fn': 'median', 'n': n, 'even': even, 'shape': list(shape) if shape else None}
         if n % 2 == 1:
             ctx.require(rank_is(m, xs, n // 2), 'median odd', d)
         elif not even:
@@ -97,7 +100,7 @@ def ob_median_scalar(n, even):
                                                    z3.Or([lo == zt(v) for v in xs]),
                                                    z3.Or([hi == zt(v) for v in xs]),
                                                    zt(m) * 2 == lo + hi)), 'median even mean', d)
-    return Obligation('median n=%d even=%d' % (n, even), fn, bounds='n=%d' % n)
+    return Obligation('median n=%d even=%d%s' % (n, even, ' shape=%s' % (shape,) if shape else ''), fn, bounds='n=%d' % n)
 
 
 def ob_median_width(n, w):
@@ -338,6 +341,10 @@ def obligations(tier, seed):
     for n in range(1, NM + 1):
         for even in (False, True):
             obs.append(ob_median_scalar(n, even))
+    # N-D input without a width: the even / odd rule is that of the total element count, whatever the first axis is
+    for shape in ([(3, 2), (2, 3), (1, 4), (3, 1)] if tier == 'quick' else [(3, 2), (2, 3), (1, 4), (3, 1), (1, 2, 2), (3, 2, 1), (2, 2)]):
+        for even in (False, True):
+            obs.append(ob_median_scalar(int(np.prod(shape)), even, shape))
     NW = 5 if tier == 'quick' else 7
     for n in range(1, NW + 1):
         for w in range(3, n + 1, 2):
@@ -409,7 +416,8 @@ def replay(rec):
         return not all(close(a, b) for a, b in zip(out.tolist(), exp))
     if fn == 'median':
         xs = [_f(inp['x%d' % i]) for i in range(d['n'])]
-        m = float(pydl.median(np.array(xs), even=d['even']))
+        arr = np.array(xs).reshape(d['shape']) if d.get('shape') else np.array(xs)
+        m = float(pydl.median(arr, even=d['even']))
         s = sorted(xs)
         n = len(s)
         exp = s[n // 2] if (n % 2 == 1 or not d['even']) else (s[n // 2 - 1] + s[n // 2]) / 2
